@@ -73,7 +73,16 @@ def run_case(case):
     return now
 
   def on_step(s):
-    if not s.reply.ok or s.uas == [['Calculate']]:     # (the settling Calculate after a failed bundle is not undone)
+    if not s.reply.ok:
+      # A failed bundle must leave no trace (C04). Where it does (listed C04 findings), the stored data differs from
+      # every snapshot taken earlier and the rest of this history says nothing about undo: stop here.
+      structural, cells = eqv.cells_diff(s.before, hr.doc.snapshot())
+      if structural or [x for x in cells if col_kind(s.before, x[0], x[1]) not in ('formula', 'helper')]:
+        out.cls('failed-bundle-left-a-trace(C04 matter; history ends)')
+        stack[:] = []
+        return True
+      return None
+    if s.uas == [['Calculate']]:     # (the settling Calculate after a failed bundle is not undone)
       return None
     undo = s.reply.undo
     log_pos = s.log_pos
